@@ -317,10 +317,17 @@ func PlaySched(beh M) ([]M, error) {
 	q := M{"id": 1, "parse": "ok", "stmts": []any{M{"id": 1, "cols": []any{}, "oids": []any{},
 		"prog": []any{M{"op": "gate", "p": "h.enter"}, M{"op": "complete", "tag": "OK"}, M{"op": "ret", "r": "nil"}}}}}
 	x.scripts["q1"] = q
+	// a second statement whose function panics once it is running (recovered by the library inside Execute)
+	x.scripts["q2"] = M{"id": 2, "parse": "ok", "stmts": []any{M{"id": 2, "cols": []any{}, "oids": []any{},
+		"prog": []any{M{"op": "gate", "p": "h.enter"}, M{"op": "panic"}}}}}
 	for _, c := range conns {
 		c.Send(pgw.Parse("s", "q1", nil))
 		c.Send(pgw.Bind("p", "s", nil, nil, nil))
-		c.Send(pgw.Sync())
+		c.Send(pgw.Parse("s2", "q2", nil))
+		c.Send(pgw.Bind("pp", "s2", nil, nil, nil))
+		if I(beh, "_i")%3 != 0 {
+			c.Send(pgw.Sync()) // otherwise the extended-query cycle stays open while Close runs
+		}
 		if _, err := c.WaitQuiet(WaitTimeout); err != nil {
 			return nil, fmt.Errorf("sched: portal setup failed")
 		}
@@ -335,8 +342,11 @@ func PlaySched(beh M) ([]M, error) {
 			return b
 		}
 		ncmd++
-		if (ncmd+len(a)+I(beh, "_i"))%2 == 0 {
+		switch (ncmd + len(a) + I(beh, "_i")) % 4 {
+		case 0, 2:
 			return pgw.Execute("p", 0)
+		case 1:
+			return pgw.Execute("pp", 0)
 		}
 		return pgw.Query("q1")
 	}
